@@ -150,6 +150,31 @@ def run(R):
                     other["name"], other["klass"], m, [os.path.relpath(p, ws.root) for p in diff]), o,
                     {"history": list(steps), "first": s0, "now": s9, "manifest_now": open(paths[0]).read(), "other_program": other["name"], "other_source": other["src"]})
             n_foreign += 1
+        # 8. a source file of a cached dependency changes between two runs (the crate outside the workspace keeps its items
+        #    in `src/parts.inc`, pulled in with `include!`): the run with the warm cache must produce what a run with a cold
+        #    cache produces from the same sources
+        if (o.get("spec") or {}).get("two_helpers"):
+            import e2e as _e2e
+            inc = os.path.join(ws.root, "ext", "helper", "src", "parts.inc")
+            if os.path.exists(inc):
+                open(inc, "w").write(_e2e.EXT_HELPER_PARTS_V2)
+                sw = step("regenerate-after-editing-an-included-source-of-a-cached-crate", True, None)
+                cold2 = os.path.join(e2e_stage.SCRATCH, "home-cold2-%d" % os.getpid())
+                shutil.rmtree(cold2, ignore_errors=True)
+                os.makedirs(cold2)
+                sc = step("same-sources-cold-cache", True, None, home=cold2)
+                shutil.rmtree(cold2, ignore_errors=True)
+                diff = [p for p in paths[:3] if sw[p] is None or sc[p] is None or sw[p][0] != sc[p][0]]
+                lib_now = open(paths[1]).read() if os.path.exists(paths[1]) else ""
+                if diff or "core2" not in lib_now:
+                    viol("output depends on the state of the documentation cache: after `ext/helper/src/parts.inc` (included by the crate's lib.rs) was "
+                         "rewritten, the run with the warm cache and the run with a cold cache on the SAME sources differ in %s%s" % (
+                             [os.path.relpath(p, ws.root) for p in diff], "" if "core2" in lib_now else "; the generated code still names the module that no longer exists"), o,
+                         {"history": list(steps), "warm": sw, "cold": sc})
+                open(inc, "w").write(_e2e.EXT_HELPER_PARTS)
+                s10 = step("regenerate-after-restoring-the-included-source", True, None)
+                if any(s10[p] is None or s10[p][0] != s0[p][0] for p in paths[:3]):
+                    viol("restoring the sources did not restore the generated bytes", o, {"first": s0, "now": s10})
         # 6. cold documentation cache (and, for the next program, a cache filled by this one = foreign history)
         if idx < n_cold:
             cold = os.path.join(e2e_stage.SCRATCH, "home-cold-%d" % os.getpid())
